@@ -2,7 +2,8 @@
    computation over a table regenerated from /repo. *)
 From Coq Require Import List String ZArith.
 From Helm Require Import Values.Tree Values.Merge Values.Coalesce Values.Options
-                         Values.MergeProofs Values.CoalesceProofs Values.SubchartProofs Gen.ValueOrder.
+                         Values.MergeProofs Values.CoalesceProofs Values.SubchartProofs
+                         Values.Strvals Values.StrvalsProofs Gen.ValueOrder.
 Import ListNotations.
 Local Open Scope string_scope.
 
@@ -115,3 +116,35 @@ Example C04_coalesce_subchart_nonvacuous :
      /\ lookup_path ["sub"; "o"] (VMap r) = Some (VStr "own").
 Proof. exact ex_subchart. Qed.
 Print Assumptions C04_coalesce_subchart_nonvacuous.
+
+(* --set / --set-string on an expression built by the printer [show_set] from a non-empty path
+   of non-empty keys (any bytes; '.', ',', '=', '[' and '\' escaped with a backslash, at most
+   31 keys = the parser's nesting limit) and any scalar text (',', '\' and '{' escaped), over a
+   destination in which every existing value on the way is a table: the parse succeeds, the
+   result is the destination with exactly the named path set to the typed value (true / false /
+   null / int64 / string by typedVal, or the string itself for --set-string), and every path
+   of the destination that is neither above nor below the named one is unchanged.
+   PARTIAL: the printer covers key paths and scalars; list indexes name[i], brace lists
+   {a,b}, several name=value pairs in one expression, --set-json / --set-file / --set-literal
+   and the statement that an unparsable expression leaves unrelated paths alone are not
+   covered by this theorem (they rest on the correspondence run, incl. the exhaustive
+   enumeration of short strings, and on the runtime oracle). *)
+Theorem C04_set_frame_partial : forall (st : bool) (ks : list string) (v : string) (dest : vmap),
+  ks <> [] -> Forall (fun k => k <> EmptyString) ks -> List.length ks <= 31 -> compat ks dest ->
+  exists d',
+    (if st then parse_into_string else parse_into) (show_set ks v) dest = POk d'
+    /\ d' = set_path ks (typed_val st v) dest
+    /\ lookup_path ks (VMap d') = Some (typed_val st v)
+    /\ (forall q, related_b ks q = false -> lookup_path q (VMap d') = lookup_path q (VMap dest)).
+Proof. exact set_frame. Qed.
+Print Assumptions C04_set_frame_partial.
+
+Example C04_set_frame_nonvacuous :
+  compat ["a"; "x.y"] ex_dest
+  /\ show_set ["a"; "x.y"] "true" = "a.x\.y=true"
+  /\ parse_into (show_set ["a"; "x.y"] "true") ex_dest
+     = POk [("a", VMap [("x.y", VBool true); ("keep", VNum 1%Z)]); ("b", VBool true)]
+  /\ parse_into (show_set ["n"; "k,1"] "a,b") ex_dest
+     = POk [("a", VMap [("x.y", VStr "old"); ("keep", VNum 1%Z)]); ("b", VBool true); ("n", VMap [("k,1", VStr "a,b")])].
+Proof. exact ex_set_frame. Qed.
+Print Assumptions C04_set_frame_nonvacuous.
